@@ -33,6 +33,9 @@ Section Exact.
       destruct (m_write (s_fs s1) to_file m t d) as [f2|e] eqn:Wr; [|discriminate]. simpl in X. inversion X; subst. simpl.
       pose proof Wr as Wr0. apply m_write_spec in Wr as [c2 [R2 [L2 _]]].
       pose proof (m_write_nonroot _ _ _ _ _ _ _ Wr0 R2) as Nc. apply resolve_nodd in R2; [subst c2 | exact Hn]. auto. }
+    destruct (q_islink (s_fs s) to_file) as [il|e]; [|discriminate].
+    destruct ((if il then mutate c (fun f => m_unlink f to_file) else ret tt) s) as [s0 [[]|e]] eqn:E0; [|discriminate].
+    clear E0. revert H. generalize s0. clear s. intros s H.
     destruct (q_exists (s_fs s) to_file) as [[|]|e]; [| |discriminate].
     - destruct (q_isfile (s_fs s) to_file) as [[|]|e]; simpl in H; try discriminate.
       destruct (lnode (s_fs s) to_file) as [n|e]; [|discriminate]. simpl in H.
@@ -306,4 +309,19 @@ Proof.
   - intros j [<-|[<-|[]]] _; vm_compute; intros [X|[]]; [discriminate | reflexivity].
   - intros e [<-|[]] _. vm_compute. intros [X|[]]. discriminate.
   - intros l [<-|[]] _. vm_compute. intros [X|[X|[]]]; discriminate.
+Qed.
+
+(* with the pending fix C11-symlink-write-through the statement above is not vacuous when a symbolic
+   link is in the way: the installation succeeds and the link is replaced by the file *)
+Example link_in_the_way_replaced :
+  let o := mkOpts false false None [] [[]; s2l "d"] 18 in
+  let i := mkFitem KData (SReg 420 7 (s2l "dg")) (s2l "a") [s2l "share"; s2l "a"] None [] None false in
+  let pl := mkPlan [[]; s2l "usr"] (Some 18) [[]; s2l "b"] [] [] [] [] [] [i] [] in
+  let f := [([s2l "d"], NDir 493); ([s2l "d"; s2l "usr"], NDir 493); ([s2l "d"; s2l "usr"; s2l "share"], NDir 493);
+            ([s2l "d"; s2l "usr"; s2l "share"; s2l "a"], NLink (s2l "/etc/passwd"))] in
+  exists f' lg, do_install o pl f = (f', lg, Ok tt) /\
+    lookup f' [s2l "d"; s2l "usr"; s2l "share"; s2l "a"] = Some (NFile 420 7 (s2l "dg")) /\
+    lookup f' [s2l "etc"; s2l "passwd"] = None.
+Proof.
+  cbv zeta. eexists. eexists. split; [vm_compute; reflexivity|]. split; vm_compute; reflexivity.
 Qed.
